@@ -148,8 +148,15 @@ asn_encode(const asn_codec_ctx_t *opt_codec_ctx,
     er = asn_encode_internal(opt_codec_ctx, syntax, td, sptr,
                              callback_failure_catch_cb, &cb_key);
     if(cb_key.callback_failed) {
-        assert(er.encoded == -1);
-        assert(errno == EBADF);
+        /*
+         * The failed output callback is the root cause, whatever
+         * the codec has made of it (or whether it has noticed at all).
+         */
+        if(er.encoded != -1) {
+            er.encoded = -1;
+            er.failed_type = td;
+            er.structure_ptr = sptr;
+        }
         errno = EIO;
     }
 
